@@ -194,7 +194,7 @@ def _gen_redir(rng):
 
 
 def gen_cases(rng, tier):
-    ns, nr = {"quick": (900, 900), "thorough": (60000, 60000), "search": (1500, 1500)}[tier]
+    ns, nr = {"quick": (900, 900), "thorough": (40000, 40000), "search": (1500, 1500)}[tier]
     if tier == "quick":
         yield from _enum_sched(3)
     elif tier == "thorough":
